@@ -170,6 +170,7 @@ func Explore[P any](c *kit.Ctx, sc Scenario[P], bound int, shard, shards int) St
 	c.AddTransitions(st.Transitions)
 	c.AddTraces(st.Execs)
 	c.AddInt("executions", st.Execs)
+	c.Set("hb_race_detection", raceOn && !sc.NoRace)
 	if st.Capped {
 		c.NotExhaustive("scenario %s: time/exec cap hit before deviation bound %d was completed (%d executions done)", sc.Name, bound, st.Execs)
 	}
